@@ -6,6 +6,75 @@ import os
 V = os.path.dirname(os.path.dirname(os.path.abspath(__file__)))
 
 CHECKS = {
+    "C01": dict(
+        engine="E1-enumerator",
+        category="exploration",
+        text="Every (format, line) is parsed by a fresh real DefaultArgsParser, strict and lenient, and every view of the result is compared type-strictly with the "
+             "assignment the line was generated from. Formats: each of 59 option kinds (value mode x type x nullable x short name x default) alone, all ordered "
+             "pairs of the 8 structural kinds (thorough: all triples), every legal argument shape with <= 2 (thorough 3) single-valued arguments (+ multi) x "
+             "{0,1,2 command names with aliases and omitted suffixes} x option companions, base/derived format splits, odd legal names. Per assignment ALL "
+             "spellings: --n=v / --n v / -nv / -n v, bare optional values, every short-group merge, every order of option occurrences, every gap placement among "
+             "positionals and command names, every '--' split, name or alias for each command name.",
+        design_ref="2/C01",
+        note="Trusted: the spelling generator in props/_parsegen.py encodes when a line IS a spelling of the assignment (separate values not starting with '-', "
+             "dash-leading positionals only behind '--', omitted names only when no leading value collides). Not demanded: is_*_set by short name/position, the "
+             "value of a bare optional-value option whose default is None. Formats bounded to <= 3 options / 3(+multi) arguments.",
+        technique="bounded-exhaustive enumeration of formats x assignments x spellings on the implementation with a by-construction oracle",
+    ),
+    "C02": dict(
+        engine="E1-enumerator",
+        category="fault_enumeration",
+        text="(a) Token soup: all sequences of length <= 3 over a 25-token adversarial alphabet ('', '-', '--', '---', '--=', '-=', known/unknown long and short "
+             "options with and without '=value', grouped shorts with an unknown letter, '-1', 'null', words) and lengths 4-5 over 8 of them (thorough <= 4 / 5-6 / "
+             "7) against 20 small formats, strict and lenient, on the real parser. (b) Every single fault (drop a required argument, surplus positional, unknown "
+             "option at every group boundary, unknown letter in a group, '=x' on a flag, stripped required value, 'abc'/'null' for a typed value) applied to every "
+             "spelling of a core family of C01 formats, each with its exactly predicted exception class. Oracle: strict outcome in {return, CannotParseArgs, "
+             "NoSuchOption, ValueError}; lenient never a parse error; strict returns => lenient returns the identical result.",
+        design_ref="2/C02",
+        note="Trusted: the fault-class predictions in props/c02.py. Which documented class a soup line gets is not demanded; a fresh parser is used per parse (re-use "
+             "is C05's subject).",
+        technique="bounded-exhaustive enumeration of token sequences and single-fault mutations on the implementation",
+    ),
+    "C05": dict(
+        engine="E2-explicit-state",
+        category="model_checking",
+        text="Explicit-state BFS over sequences of parse requests issued to ONE real DefaultArgsParser: 24 requests (success with flags / values / multi-values, each "
+             "failure kind, lenient partial parses, two formats, the very same RawArgs and format objects parsed leniently and strictly, two commands sharing the "
+             "parser through Config.set_args_parser); fingerprint = full vars() of the parser over its MRO + retained results. The graph closes (76 states), so the "
+             "result holds for request sequences of any length; plus every sequence of length <= 4 (thorough 5) without dedup. Oracle: each outcome equals what a "
+             "fresh parser in a fresh process gives; results handed out earlier stay unchanged; argv list, RawArgs and every format listing/state unchanged.",
+        design_ref="2/C05",
+        note="Trusted: the per-request reference table computed in pristine processes; mc.fingerprint.canon as full-state fingerprint.",
+        technique="explicit-state model checking of the implementation (closed state graph over request histories, differential oracle against fresh instances)",
+    ),
+    "C08": dict(
+        engine="E1-enumerator",
+        category="exploration",
+        text="(a) every string of length <= 6 (thorough 7) over {a, space, tab, single quote, double quote, backslash, '-'} through the real StringArgs/TokenParser: "
+             "returns a list of str, terminates (watchdog per chunk => verdict, not a hang), unquoted text splits like str.split(); (b) every list of <= 2 tokens of "
+             "length <= 3 (thorough 3 tokens of length <= 2) over {a, e-acute, space, quotes, backslash, '-', '='} that the quoting scheme can express x quote style x "
+             "separator x leading/trailing whitespace: tokens == original list; (c) generated command lines as StringArgs vs ArgvArgs: identical parse and "
+             "resolution, option_tokens == tokens before the first '--', has_option_token agrees.",
+        design_ref="2/C08",
+        note="Trusted: the expressibility rule for backslash runs documented in props/c08.py (the scheme has no escape for a backslash before a quote).",
+        technique="bounded-exhaustive enumeration of strings and token lists on the implementation with a round-trip oracle",
+    ),
+    "C16": dict(
+        engine="E2-explicit-state",
+        category="model_checking",
+        text="Explicit-state BFS over the real ProgressBar under a virtual clock (exact binary ticks): operations start / start(max') / advance(1|3) / set_progress "
+             "{0, mid, max, max+2, -1} / display / clear / finish / set_message, each preceded by a clock advance from 5 values; configurations max {0,1,3,10} "
+             "(thorough to 200) x bar widths x 6 formats x min interval {0, 0.1} x {ANSI, plain, section at 20 columns, quiet}. Broad part: all ops x all clocks to "
+             "depth 2 over 204 (thorough 890) configurations; reduced alphabets to depth 4-5 (thorough 6-7); complete ramps of set_progress for max up to 200. "
+             "Every write is parsed against the format and interpreted on the terminal emulator: bar segment width, 0 <= step <= max, percent == 100*step//max, "
+             "throttle respected below max, max/finish always draw, last frame final; ANSI screen == latest frame, plain: one frame per line and no control "
+             "codes, quiet: nothing.",
+        design_ref="2/C16",
+        note="Trusted: mc/clock.py (installed before clikit is imported, self-probed), mc/term.py, the reference model of step/max in props/c16.py; clock fields enter "
+             "the fingerprint as now - field capped at 1 s (formats with %elapsed% run uncapped at smaller depth; dedup vs no-dedup cross-check per run). The state "
+             "graph is infinite (max grows, writes are counted), so depth is the bound.",
+        technique="explicit-state model checking of the implementation under a virtual clock with a frame parser and terminal emulator oracle",
+    ),
     "C13": dict(
         engine="E1-enumerator",
         category="exploration",
